@@ -158,12 +158,16 @@ def _text_templates():
     both("utf16_EncodeRune", [("r", "i32")], "u64", "a, b := utf16.EncodeRune(rune(r))\n\treturn u64(u32(a))<<32 | u64(u32(b))")
     both("utf16_DecodeRune", [("a", "i32"), ("b", "i32")], "i32", "return i32(utf16.DecodeRune(rune(a), rune(b)))")
     both("utf16_Encode_Decode", [("r", "i32"), ("q", "i32")], "u32", "e := utf16.Encode([]rune{rune(r), rune(q)})\n\td := utf16.Decode(e)\n\th := u32(len(e))*1000 + u32(len(d))\n\tfor _, x := range e {\n\t\th = h*31 + u32(x)\n\t}\n\tfor _, x := range d {\n\t\th = h*31 + u32(x)\n\t}\n\treturn h")
+    both("utf16_Decode_units", [("a", "u16"), ("b", "u16"), ("c", "u16")], "u32", "d := utf16.Decode([]u16{a, b, c})\n\th := u32(len(d))\n\tfor _, x := range d {\n\t\th = h*31 + u32(x)\n\t}\n\treturn h")
+    both("utf16_Encode_runes", [("r", "i32"), ("q", "i32")], "u32", "e := utf16.Encode([]rune{rune(r), rune(q)})\n\th := u32(len(e))\n\tfor _, x := range e {\n\t\th = h*31 + u32(x)\n\t}\n\treturn h")
     # strconv
     both("strconv_FormatBool_ParseBool", wn, "u32", "v, err := strconv.ParseBool(string(vtBytes(w, n)))\n\th := vtHash(strconv.FormatBool(v))\n\tif err != nil {\n\t\th += 1000\n\t}\n\treturn h")
     both("strconv_Atoi", wn, "u64", "v, err := strconv.Atoi(string(vtBytes(w, n)))\n\th := u64(u32(v))\n\tif err != nil {\n\t\th |= 1 << 40\n\t}\n\treturn h")
     both("strconv_ParseUint_16", wn, "u64", "v, err := strconv.ParseUint(string(vtBytes(w, n)), 16, 16)\n\th := v\n\tif err != nil {\n\t\th |= 1 << 40\n\t}\n\treturn h")
     both("strconv_ParseUint_64", wn, "u64", "v, err := strconv.ParseUint(string(vtBytes(w, n)), 10, 64)\n\th := v\n\tif err != nil {\n\t\th |= 1 << 40\n\t}\n\treturn h")
     both("strconv_ParseInt_64", wn, "u64", "v, err := strconv.ParseInt(string(vtBytes(w, n)), 0, 64)\n\th := u64(v) & 0xffffffffff\n\tif err != nil {\n\t\th |= 1 << 40\n\t}\n\treturn h")
+    both("strconv_ParseInt_8", wn, "u64", "v, err := strconv.ParseInt(string(vtBytes(w, n)), 10, 8)\n\th := u64(v) & 0xffff\n\tif err != nil {\n\t\th |= 1 << 40\n\t}\n\treturn h")
+    both("strconv_ParseInt_16_base0", wn, "u64", "v, err := strconv.ParseInt(string(vtBytes(w, n)), 0, 16)\n\th := u64(v) & 0xfffff\n\tif err != nil {\n\t\th |= 1 << 40\n\t}\n\treturn h")
     both("strconv_Quote", wn, "u32", "return vtHash(strconv.Quote(string(vtBytes(w, n))))", zone=("w&0x80808080 != 0", "@non-ascii-input"))
     # hashes
     both("adler32_Checksum", wn, "u32", "return adler32.Checksum(vtBytes(w, n))")
